@@ -41,6 +41,7 @@ type interleaver struct {
 	sites    map[string]string
 	finished map[string]bool
 	depth    map[uint64]int
+	buf      []byte
 }
 
 func (il *interleaver) hook(site string) {
@@ -92,8 +93,87 @@ func (il *interleaver) release(role string) bool {
 		return false
 	}
 	close(ch)
-	sim.Wait()
 	return true
+}
+
+// goroutineStates returns the wait reason of every goroutine ("running", "chan receive (durable), synctest bubble 1",
+// "sync.RWMutex.RLock, synctest bubble 1", ...), parsed from the headers of a full stack dump.
+func (il *interleaver) goroutineStates() map[uint64]string {
+	if il.buf == nil {
+		il.buf = make([]byte, 4<<20)
+	}
+	b := il.buf[:runtime.Stack(il.buf, true)]
+	res := map[uint64]string{}
+	for len(b) > 0 {
+		line := b
+		if i := bytes.IndexByte(b, '\n'); i >= 0 {
+			line, b = b[:i], b[i+1:]
+		} else {
+			b = nil
+		}
+		if !bytes.HasPrefix(line, []byte("goroutine ")) {
+			continue
+		}
+		rest := line[len("goroutine "):]
+		sp := bytes.IndexByte(rest, ' ')
+		lb, rb := bytes.IndexByte(rest, '['), bytes.LastIndexByte(rest, ']')
+		if sp <= 0 || lb < 0 || rb < lb {
+			continue
+		}
+		if id, err := strconv.ParseUint(string(rest[:sp]), 10, 64); err == nil {
+			res[id] = string(rest[lb+1 : rb])
+		}
+	}
+	return res
+}
+
+// settle waits until both goroutines of the concurrent section are in a state that only a decision of the
+// scheduler can change: parked at a yield, finished, or waiting for a sync.(RW)Mutex while the other one is parked
+// (a parked goroutine holds none of the cache's locks, but it may hold one of the ledger's other locks - the native
+// cache lock inside dao.Persist, the header hashes lock, bc.lock - that the flush or the GC pass after it needs;
+// production simply waits there, and so does the harness: the lock holder is released next). synctest.Wait cannot
+// be used inside the section, a goroutine waiting for a mutex is not durably blocked. The decision depends on
+// goroutine states only, never on time.
+func (il *interleaver) settle() (adder, flusher string) {
+	for i := 0; ; i++ {
+		if i > 200000 {
+			sim.Harnessf("concurrent flush: the section did not settle (adder %s, flusher %s)", adder, flusher)
+		}
+		runtime.Gosched()
+		il.mu.Lock()
+		gids := map[string]uint64{}
+		for g, r := range il.role {
+			gids[r] = g
+		}
+		st := map[string]string{}
+		for _, r := range []string{"adder", "flusher"} {
+			switch {
+			case il.finished[r]:
+				st[r] = "finished"
+			case il.parked[r] != nil:
+				st[r] = "parked"
+			case gids[r] == 0:
+				st[r] = "finished" // not started
+			}
+		}
+		il.mu.Unlock()
+		adder, flusher = st["adder"], st["flusher"]
+		if adder != "" && flusher != "" {
+			return
+		}
+		gs := il.goroutineStates()
+		for _, r := range []string{"adder", "flusher"} {
+			if st[r] == "" {
+				if s := gs[gids[r]]; strings.HasPrefix(s, "sync.Mutex.Lock") || strings.HasPrefix(s, "sync.RWMutex.") {
+					st[r] = "blocked"
+				}
+			}
+		}
+		adder, flusher = st["adder"], st["flusher"]
+		if (adder == "blocked" && flusher == "parked") || (flusher == "blocked" && adder == "parked") {
+			return
+		}
+	}
 }
 
 func (il *interleaver) isParked(role string) bool {
@@ -139,24 +219,30 @@ func (r *run) addBlockWithConcurrentFlush(n *Node, raw []byte, withGC bool) (add
 		il.finished["flusher"] = true
 		il.mu.Unlock()
 	}()
-	sim.Wait() // flusher parked before its first lock (or finished: nothing to flush)
+	il.settle() // flusher parked before its first lock (or finished: nothing to flush)
 	inside := il.isParked("adder")
 	// tape-chosen order of releases; every goroutine parked here holds none of the cache's locks
-	for guard := 0; guard < 5000; guard++ {
-		a, f := il.isParked("adder"), il.isParked("flusher")
-		if !a && !f {
+	for guard := 0; ; guard++ {
+		if guard > 5000 {
+			sim.Harnessf("concurrent flush: too many scheduling steps")
+		}
+		a, f := il.settle()
+		if a != "parked" && f != "parked" {
 			break
 		}
 		switch {
-		case a && f:
+		case a == "parked" && f == "parked":
 			if r.tape.Choose(2) == 0 {
 				il.release("flusher")
 			} else {
 				il.release("adder")
 			}
-		case f:
+		case f == "parked":
 			il.release("flusher")
 		default:
+			if f == "blocked" {
+				r.out.Probes["flusher_waited_for_lock_of_parked_adder"]++
+			}
 			il.release("adder")
 		}
 	}
